@@ -4,6 +4,7 @@ import (
 	"errors"
 	"fmt"
 	"io"
+	"math"
 	"math/big"
 	"reflect"
 	"regexp"
@@ -805,11 +806,12 @@ func integer(sign int64, s string) (Integer, error) {
 }
 
 func float(sign float64, s string) (Float, error) {
-	bf, _, _ := big.ParseFloat(s, 10, 0, big.ToZero)
-	bf.Mul(big.NewFloat(sign), bf)
-
-	f, _ := bf.Float64()
-	return Float(f), nil
+	// strconv rounds the decimal text to the nearest float64 in a single step.
+	f, err := strconv.ParseFloat(s, 64)
+	if err != nil && (!errors.Is(err, strconv.ErrRange) || math.IsInf(f, 0)) {
+		return 0, err // malformed, or too large to be a float
+	}
+	return Float(sign * f), nil
 }
 
 var (
